@@ -174,7 +174,7 @@ Section Step.
     - (* UExt *)
       rename f0 into fr.
       destruct (alookup (a_regs a) fr) as [k|] eqn:El; [|discriminate].
-      destruct (rd1 (p_ext p) (Z.to_N k)) as [[code arity| |aop aew]|] eqn:Ee; try discriminate.
+      destruct (rd1 (p_ext p) (Z.to_N k)) as [[code arity| |aop aew|]|] eqn:Ee; try discriminate.
       match type of Hflow with (if ?c then _ else _) = _ => destruct c eqn:Econd; [|discriminate] end.
       inversion Hflow; subst succs. clear Hflow.
       apply andb_true_iff in Econd. destruct Econd as [Econd Hnret].
